@@ -17,6 +17,7 @@ What is regenerated (vocabulary of leaves: coq/theories/Impl/Dispatch.v):
                                   read_rle_bit_packed_hybrid(.., NumpyIO(<buf>..), itemsize=k)   DGeneric <item size of buf's allocation> k
                                   np.zeros(..) and no decoder call                      DZeros
   read_plain_boolean_gen  encoding.read_plain_boolean: count handed to read_bitpacked1, allocation of the output, returned slice
+  one_run_check         core._is_one_bitpacked_run: the condition on (run header, number of values)
   v1_delta_alloc        core.read_data_page: (item size of the np.empty handed to delta_binary_unpack, its longval argument)
 Anything outside these shapes: fail closed (exit status 2, source location on stderr); the check then falls back to
 the pinned text + the correspondence run on the real page readers and records `translator_fallback`.
@@ -99,6 +100,11 @@ class Tr:
     def b(self, e):
         if isinstance(e, ast.Name) and e.id in self.bn:
             return self.bn[e.id]
+        if isinstance(e, ast.Call) and isinstance(e.func, ast.Name) and e.func.id == "_is_one_bitpacked_run":
+            # core._is_one_bitpacked_run(io, n): the index block is ONE bit-packed run holding at least n values
+            return "one_run"
+        if isinstance(e, ast.Constant) and e.value in (0, False):
+            return "false"
         if isinstance(e, ast.Name) and (e.id in self.nn or e.id in self.env):
             return "negb (%s =? 0)" % self.n(e)
         if isinstance(e, ast.BoolOp):
@@ -287,14 +293,28 @@ def calls(node, attr):
             ((isinstance(n.func, ast.Attribute) and n.func.attr == attr) or (isinstance(n.func, ast.Name) and n.func.id == attr))]
 
 
+def derived_names(fn):
+    """locals that carry the outcome of core._is_one_bitpacked_run (e.g. `run_header`)"""
+    out = set()
+    for n in ast.walk(fn):
+        if isinstance(n, ast.Assign) and len(n.targets) == 1 and isinstance(n.targets[0], ast.Name) \
+                and isinstance(n.value, ast.Call) and isinstance(n.value.func, ast.Name) and n.value.func.id == "_is_one_bitpacked_run":
+            out.add(n.targets[0].id)
+    return out
+
+
 def index_chains(fn):
-    """outermost If statements whose test mentions bit_width and that contain the generic decoder call"""
+    """outermost If statements whose test mentions bit_width (or a local derived from it through
+    _is_one_bitpacked_run) and that contain the generic decoder call; with the statements of the same block
+    that precede them (they may set the derived locals)"""
     out = []
+    der = derived_names(fn)
 
     def walk(stmts):
-        for s in stmts:
-            if isinstance(s, ast.If) and mentions(s.test, "bit_width") and calls(s, "read_rle_bit_packed_hybrid"):
-                out.append(s)
+        for i, s in enumerate(stmts):
+            if isinstance(s, ast.If) and (mentions(s.test, "bit_width") or any(mentions(s.test, d) for d in der)) \
+                    and calls(s, "read_rle_bit_packed_hybrid"):
+                out.append((s, stmts[:i]))
                 continue
             for field in ("body", "orelse", "finalbody"):
                 sub = getattr(s, field, None)
@@ -307,13 +327,34 @@ def index_chains(fn):
 def is_view(s):
     """an array view of the page bytes as integers of bit_width bits: `'int%i' % bit_width`"""
     return any(isinstance(x, ast.BinOp) and isinstance(x.op, ast.Mod) and isinstance(x.left, ast.Constant)
-               and x.left.value == "int%i" and ast.unparse(x.right) == "bit_width" for x in ast.walk(s))
+               and x.left.value in ("int%i", "uint%i") and ast.unparse(x.right) == "bit_width" for x in ast.walk(s))
 
 
-def index_tree(chain, fname, allocs0):
+def index_tree(chain_prefix, fname, allocs0):
+    chain, prefix = chain_prefix
     nn = {"bit_width": "bit_width"}
     bn = {"selfmade": "selfmade", "n_values": "nonempty", "nval": "nonempty"}
     tr = Tr(fname, nn, bn)
+    # derived locals set before the chain:  name = 0  /  if <cond>: name = _is_one_bitpacked_run(..)
+    der = set()
+    for n in ast.walk(chain):
+        pass
+    for s in prefix:
+        for n in ast.walk(s):
+            if isinstance(n, ast.Assign) and len(n.targets) == 1 and isinstance(n.targets[0], ast.Name) \
+                    and isinstance(n.value, ast.Call) and isinstance(n.value.func, ast.Name) and n.value.func.id == "_is_one_bitpacked_run":
+                der.add(n.targets[0].id)
+    for s in prefix:
+        if isinstance(s, ast.Assign) and len(s.targets) == 1 and isinstance(s.targets[0], ast.Name) and s.targets[0].id in der:
+            tr.bn[s.targets[0].id] = "(%s)" % tr.b(s.value)
+        elif isinstance(s, ast.If) and any(isinstance(x, ast.Assign) and isinstance(x.targets[0], ast.Name) and x.targets[0].id in der
+                                           for x in ast.walk(s)):
+            if s.orelse or len(s.body) != 1 or not isinstance(s.body[0], ast.Assign):
+                fail(s, "unsupported setting of %s" % sorted(der), fname)
+            v = s.body[0].targets[0].id
+            if v not in tr.bn:
+                fail(s, "%s is set before it is initialised" % v, fname)
+            tr.bn[v] = "(if %s then %s else %s)" % (tr.b(s.test), tr.b(s.body[0].value), tr.bn[v])
 
     def buf_of(e, allocs, names):
         """the allocation a NumpyIO(...) output argument wraps"""
@@ -331,14 +372,22 @@ def index_tree(chain, fname, allocs0):
         for i, s in enumerate(stmts):
             rest = stmts[i + 1:]
             if isinstance(s, ast.If):
-                if not (mentions(s.test, "bit_width") or mentions(s.test, "selfmade") or mentions(s.test, "n_values")):
+                if not (mentions(s.test, "bit_width") or mentions(s.test, "selfmade") or mentions(s.test, "n_values")
+                        or any(mentions(s.test, d) for d in tr.bn)):
                     if calls(s, "read_rle_bit_packed_hybrid"):
                         fail(s, "decoder call under a condition outside the vocabulary: %s" % ast.unparse(s.test)[:60], fname)
                     if is_view(s):
                         # (read_data_page_v2: byte copy when the item sizes agree, else the typed view - the same bytes)
                         return pad + "DFast"
                     continue                                   # what happens to the decoded values afterwards
-                return (pad + "if %s then\n" % tr.b(s.test) + block(s.body + rest, dict(allocs), dict(names), ind + 1) + "\n"
+                try:
+                    cond = tr.b(s.test)
+                except Unsupported:
+                    if not calls(s, "read_rle_bit_packed_hybrid") and is_view(s):
+                        # (byte copy when item sizes agree and there are no nulls, else the typed view: the same bytes)
+                        return pad + "DFast"
+                    raise
+                return (pad + "if %s then\n" % cond + block(s.body + rest, dict(allocs), dict(names), ind + 1) + "\n"
                         + pad + "else\n" + block(s.orelse + rest, dict(allocs), dict(names), ind + 1))
             if isinstance(s, ast.Assign) and len(s.targets) == 1 and isinstance(s.targets[0], ast.Name) \
                     and isinstance(s.value, ast.Call):
@@ -378,6 +427,49 @@ def index_tree(chain, fname, allocs0):
             return pad + "DZeros"
         return pad + "DNone"
     return block([chain], dict(allocs0), {}, 1)
+
+
+def one_run_check(fns, fname):
+    """core._is_one_bitpacked_run(io_obj, nval): header = read_unsigned_var_int(io_obj); if <cond(header, nval)>: return header;
+    io_obj.seek(start); return 0   ->  the condition as a Gallina bool over (header, nval)"""
+    fn = fns.get("_is_one_bitpacked_run")
+    if fn is None:
+        raise Unsupported("%s: function _is_one_bitpacked_run not found" % fname)
+    if [a.arg for a in fn.args.args] != ["io_obj", "nval"]:
+        fail(fn, "_is_one_bitpacked_run parameters changed", fname)
+    body = [s for s in fn.body if not is_doc(s)]
+    shape = [ast.unparse(s).split("\n")[0] for s in body]
+    if len(body) != 5 or shape[0] != "start = io_obj.tell()" or shape[1] != "header = encoding.read_unsigned_var_int(io_obj)" \
+            or not isinstance(body[2], ast.If) or ast.unparse(body[2].body[0]) != "return header" or len(body[2].body) != 1 or body[2].orelse \
+            or shape[3] != "io_obj.seek(start)" or shape[4] != "return 0":
+        fail(fn, "_is_one_bitpacked_run has another shape than: read header / if cond: return header / seek back / return 0", fname)
+
+    def n(e):
+        if isinstance(e, ast.Constant) and isinstance(e.value, int) and e.value >= 0:
+            return str(e.value)
+        if isinstance(e, ast.Name) and e.id in ("header", "nval"):
+            return e.id
+        ops = {ast.RShift: "N.shiftr", ast.LShift: "N.shiftl", ast.Mult: "N.mul", ast.Add: "N.add", ast.BitAnd: "N.land", ast.FloorDiv: "N.div",
+               ast.Mod: "N.modulo"}
+        if isinstance(e, ast.BinOp) and type(e.op) in ops:
+            return "(%s %s %s)" % (ops[type(e.op)], n(e.left), n(e.right))
+        fail(e, "unsupported arithmetic %s" % ast.unparse(e)[:50], fname)
+
+    def b(e):
+        if isinstance(e, ast.BoolOp):
+            return "(" + (" && " if isinstance(e.op, ast.And) else " || ").join(b(v) for v in e.values) + ")"
+        if isinstance(e, ast.Compare) and len(e.ops) == 1:
+            tab = {ast.Eq: "(%s =? %s)", ast.NotEq: "negb (%s =? %s)", ast.Lt: "(%s <? %s)", ast.LtE: "(%s <=? %s)"}
+            l, r, op = e.left, e.comparators[0], e.ops[0]
+            if isinstance(op, (ast.Gt, ast.GtE)):
+                l, r = r, l
+                op = ast.Lt() if isinstance(op, ast.Gt) else ast.LtE()
+            if type(op) in tab:
+                return tab[type(op)] % (n(l), n(r))
+        if isinstance(e, (ast.BinOp, ast.Name)):
+            return "negb (%s =? 0)" % n(e)          # truthiness of an integer
+        fail(e, "unsupported condition %s" % ast.unparse(e)[:50], fname)
+    return b(body[2].test)
 
 
 def delta_alloc(fn, fname):
@@ -426,11 +518,12 @@ def translate(enc_src, core_src, enc_name="encoding.py", core_name="core.py"):
     out_alloc = {}
     for n in ast.walk(fns["read_data_page_v2"]):
         if isinstance(n, ast.Assign) and ast.unparse(n.targets[0]) == "out" and isinstance(n.value, ast.Call) \
-                and ast.unparse(n.value.func) in ("np.zeros", "np.empty") and n.lineno < c2[1].lineno:
+                and ast.unparse(n.value.func) in ("np.zeros", "np.empty") and n.lineno < c2[1][0].lineno:
             kw = {k.arg: k.value for k in n.value.keywords}
             out_alloc = {"out": (ast.unparse(n.value.func)[3:], dtype_size(kw["dtype"], core_name))}
     v2d = index_tree(c2[1], core_name, out_alloc)
     da = delta_alloc(fns["read_data_page"], core_name)
+    orc = one_run_check(fns, core_name)
     out = []
     out.append("(* generated by translators/dispatch2coq.py from fastparquet/encoding.py and fastparquet/core.py - do not edit *)")
     out.append("From Coq Require Import NArith List Bool.")
@@ -439,10 +532,12 @@ def translate(enc_src, core_src, enc_name="encoding.py", core_name="core.py"):
     out.append("Definition decode_typemap : list (N * N) := [%s].\n" % "; ".join("(%d, %d)" % p for p in tm))
     out.append("Definition read_plain_dispatch (type_ count width rawlen : N) (utf stat : bool) : pdec :=\n%s.\n" % rp)
     out.append("Definition read_plain_boolean_gen (raw : bytes) (count : N) : res (list N) :=\n%s.\n" % rpb)
-    out.append("Definition v1_index_dispatch (nonempty : bool) (bit_width : N) (selfmade : bool) : idec :=\n%s.\n" % v1)
-    out.append("Definition v2_cat_dispatch (nonempty : bool) (bit_width : N) (selfmade : bool) : idec :=\n%s.\n" % v2c)
-    out.append("Definition v2_deref_dispatch (nonempty : bool) (bit_width : N) (selfmade : bool) : idec :=\n%s.\n" % v2d)
+    out.append("Definition v1_index_dispatch (nonempty : bool) (bit_width : N) (selfmade one_run : bool) : idec :=\n%s.\n" % v1)
+    out.append("Definition v2_cat_dispatch (nonempty : bool) (bit_width : N) (selfmade one_run : bool) : idec :=\n%s.\n" % v2c)
+    out.append("Definition v2_deref_dispatch (nonempty : bool) (bit_width : N) (selfmade one_run : bool) : idec :=\n%s.\n" % v2d)
     out.append("Definition v1_delta_alloc (type_ : N) : N * bool := %s.\n" % da)
+    out.append("(* core._is_one_bitpacked_run: when does the run header at the cursor count as THE one bit-packed run holding nval values *)")
+    out.append("Definition one_run_check (header nval : N) : bool := %s.\n" % orc)
     return "\n".join(out)
 
 
